@@ -545,6 +545,10 @@ def explore_shard(arg):
                                         return True
                             return False
                         rec([[s, t]], 1)
+        elif mode == 'list':
+            for schedule in param:
+                run, obs = make_run(schedule)
+                on_run(schedule, run, obs)
         else:
             rng = random.Random('%s/%s/%s/C16' % (seed, scn['name'], param))
             base_run, _ = make_run([])
@@ -625,9 +629,22 @@ def scenario_len(scn):
     return {'steps': run.steps, 'alts': [list(a) for a in run.alts], 'where': run.where[:400]}
 
 
+def corpus_args(ctx, scns):
+    """corpus/C16/*.json: (scenario name, schedule) pairs that once exposed something; run first"""
+    import glob
+    byname = dict((s['name'], s) for s in scns)
+    per = {}
+    for path in sorted(glob.glob(os.path.join(proto.ROOT, 'corpus', 'C16', '*.json'))):
+        with open(path) as f:
+            c = json.load(f)
+        if c['scenario'] in byname:
+            per.setdefault(c['scenario'], []).append(c['schedule'])
+    return [(byname[n], 'list', sch, ctx.seed) for n, sch in sorted(per.items())]
+
+
 def shards(ctx, scns):
     infos = pmap('harness.props.c16', 'scenario_len', scns)
-    args = []
+    args = corpus_args(ctx, scns)
     for scn, info in zip(scns, infos):
         if scn['bound'] >= 1:
             firsts = [[i + 1, t] for i, alts in enumerate(info['alts']) for t in alts]
